@@ -102,6 +102,8 @@ _add(PF("mi_spec3", _limbs(0x20CD9255FD615923, 0xACAFC103CD968A25, 0xFFFFFFFFFFF
 _add(PF("mi_spec4", _limbs(M64, M64, M64, 0xFFFFFFFFFFFFFFFB), 4, "modint", MODINT_CAPS, 32))
 _add(PF("mi_spec5", _limbs(M64, M64, 0xFFFFFFFFFFFFFF70, M64), 4, "modint", MODINT_CAPS, 32))
 _add(PF("mi_spec6", _limbs(M64, M64, M64, 0x8000000000000021), 4, "modint", MODINT_CAPS, 32))
+# BLS12-381 scalar field (q = 1 mod 2^32: low limb 1; sqrt is Tonelli-Shanks territory, q % 8 == 1)
+_add(PF("mi_bls", 0x73eda753299d7d483339d80809a1d80553bda402fffe5bfeffffffff00000001, 4, "modint", MODINT_CAPS, 32))
 _add(PF("mi_193", (1 << 192) + 133, 4, "modint", MODINT_CAPS, 25))
 _add(PF("g127", (1 << 127) - 1, 2, "gfgen", GFGEN_CAPS, 16))
 _add(PF("g192", (1 << 192) - (1 << 64) - 1, 3, "gfgen", GFGEN_CAPS, 24))
